@@ -17,6 +17,7 @@ type rewrite struct {
 	Side     []string          // side conditions as terms over I0.., e.g. "I0.A == I2.A"
 	SideEq   [][2]*T           // equalities between instruction fields
 	SideZero []*T              // fields required to be zero
+	PosSide  []string          // conditions over the Pos fields of the window only
 	Bound    int64             // the k of `n < len(in)-k`
 	HasBound bool
 	Skip     int64 // the amount added to n in the body
@@ -299,6 +300,13 @@ func (c *Ctx) extractPeephole(fd *ast.FuncDecl, sw *ast.SwitchStmt) (*peephole, 
 			// side conditions
 			okSide := true
 			for _, e := range residual {
+				// a condition over the positions of window elements only restricts *when* the
+				// rewrite applies (e.g. "both on the same line"); it cannot change what the
+				// rewritten code does, so it is recorded and otherwise ignored
+				if onlyPositions(c, e) {
+					rw.PosSide = append(rw.PosSide, c.Src(e))
+					continue
+				}
 				be, isB := e.(*ast.BinaryExpr)
 				if !isB || be.Op != token.EQL {
 					okSide = false
@@ -380,4 +388,21 @@ func mentionsOperand(e ast.Expr) bool {
 		return true
 	})
 	return found
+}
+
+// onlyPositions: every instruction field the expression mentions is .Pos.
+func onlyPositions(c *Ctx, e ast.Expr) bool {
+	fields, pos := 0, 0
+	ast.Inspect(e, func(n ast.Node) bool {
+		sel, ok := n.(*ast.SelectorExpr)
+		if !ok || !isNamed(c.TypeOf(sel.X), "instruction") {
+			return true
+		}
+		fields++
+		if sel.Sel.Name == "Pos" {
+			pos++
+		}
+		return true
+	})
+	return fields > 0 && fields == pos
 }
